@@ -418,20 +418,33 @@ pub fn run_one(id: u64, aig: &Aig<L>, o: [bool; 3]) -> &'static str {
     trace::rec(aig_record(id, aig, o));
     trace::install_hooks("t");
     fn same(c: usize) -> usize { c }
+    // the declared maximum variable index of the input is a header field, not part of the circuit: renumbering must not
+    // depend on it (a graph built in memory may carry a stale or default value)
+    let lowered;
+    let recorded = aig;
+    let aig = if id % 7 == 3 {
+        let mut c = aig.clone();
+        c.max_var_index /= 3;
+        lowered = c;
+        &lowered
+    } else {
+        aig
+    };
+    let maxvar = recorded.max_var_index;
     let out = if id % 3 == 0 {
         let w = to_wl(aig);
         let res = crate::catch(|| Renumber::renumber_aig(config(o), &w));
-        outcome_of(aig.max_var_index, res, from_wl, same, same)
+        outcome_of(maxvar, res, from_wl, same, same)
     } else if id % 3 == 1 {
         // the same graph with literal codes of 40 and more bits (u64): renumbering only depends on the structure
         let w = to_sparse(aig);
         trace::TR_UNSPREAD.with(|f| f.set(Some(unspread)));
         let res = crate::catch(|| Renumber::renumber_aig(config(o), &w));
         trace::TR_UNSPREAD.with(|f| f.set(None));
-        outcome_of(aig.max_var_index, res, from_u64, spread, unspread)
+        outcome_of(maxvar, res, from_u64, spread, unspread)
     } else {
         let res = crate::catch(|| Renumber::renumber_aig(config(o), aig));
-        outcome_of(aig.max_var_index, res, |x| x, same, same)
+        outcome_of(maxvar, res, |x| x, same, same)
     };
     trace::uninstall_hooks();
     let kind = match &out {
@@ -441,7 +454,7 @@ pub fn run_one(id: u64, aig: &Aig<L>, o: [bool; 3]) -> &'static str {
         Outcome::Undefined(_) => "undefined",
         Outcome::Redefined(_) => "redefined",
     };
-    trace::rec(done_record(aig, out));
+    trace::rec(done_record(recorded, out));
     kind
 }
 
